@@ -1092,6 +1092,11 @@ def _list_decorators() -> Dict[str, Callable[[_FN], _FN]]:
 
     def remove(fn):
         def remove(self, value, _sa_initiator=None):
+            # as list.remove() does, fail before anything happens (in
+            # particular before the remove event fires) for a non-member
+            # testlib.pragma exempt:__eq__
+            if value not in self:
+                raise ValueError("list.remove(x): x not in list")
             __del(self, value, _sa_initiator, NO_KEY)
             # testlib.pragma exempt:__eq__
             fn(self, value)
